@@ -76,7 +76,12 @@ Line ==
                     IF CallArg("n") < 0 THEN e.r = "ErrBadValue" /\ UNCHANGED vars /\ UNCH_T
                     ELSE e.r = "ok" /\ SetQLen(e.o, CallArg("n")) /\ UNCH_T
                [] OTHER -> UNCHANGED vars /\ UNCH_T
-     [] e.k = "padd" -> AtNow /\ AddPipe(e.p, e.r = "ok") /\ UNCH_T
+     [] e.k = "padd" ->
+          \* the protocol is being told of the pipe; its verdict is a function of its state
+          AtNow /\ (\E ok \in BOOLEAN : AddPipe(e.p, ok)) /\ UNCH_T
+     [] e.k = "paddres" ->
+          \* ... and must be the one observed
+          (e.r = "ok") = (e.p \in pipes) /\ UNCHANGED vars /\ UNCH_T
      [] e.k = "prem" -> AtNow /\ RemovePipe(e.p) /\ UNCH_T
      [] e.k = "rv" -> AtNow /\ Arrive(e.o, e.b) /\ UNCH_T
      [] OTHER -> FALSE
